@@ -153,7 +153,7 @@ def dy(rng):
 def dyw(rng):
     """integers that need 25-26 significant bits, of both signs: exact in double precision (and so are the sums of a handful
     of them), not in single precision; local fields made of them nearly cancel"""
-    return F(rng.choice([-1, 1]) * 2 ** 24 + rng.randint(-3, 3))
+    return F(rng.choice([-1, 1]) * 2 ** 24 + rng.choice([-3, -1, 1, 3]))       # odd: never a single-precision number
 
 
 def gen_model(rng, fn, uni, dy=dy):
@@ -185,7 +185,7 @@ def gen_case(rng, tier, T_modes=("zero", "pos", "mixed", "named", "empty")):
     else:
         kind = None if form == "dict" else rng.choice([k for k in fam if k.endswith("Matrix") == (form == "matrix")])
     uni = 'int' if (kind and kind.endswith("Matrix")) else rng.choice(['int', 'pool'])
-    wide = rng.random() < 0.15
+    wide = rng.random() < 0.2
     t, labs = gen_model(rng, fn, uni, dyw if wide else dy)
     if kind in QUAD:
         t = [(k, v) for k, v in t if len(k) <= 2]
@@ -195,10 +195,10 @@ def gen_case(rng, tier, T_modes=("zero", "pos", "mixed", "named", "empty")):
         t = [((0,), dy(rng))] + ([((), dy(rng))] if rng.random() < 0.5 else [])       # one variable, index 0
         labs = [0]
     big = False
-    if uni == 'int' and rng.random() < 0.04:
+    if uni == 'int' and rng.random() < 0.09:
         # more spins than a machine word has bits: a chain with fields on 33..40 variables, several anneals at T > 0
         n = rng.randint(33, 40)
-        if rng.random() < 0.5:
+        if rng.random() < 0.35:
             t = [((i, i + 1), dy(rng)) for i in range(n - 1)] + [((i,), dy(rng)) for i in range(n) if rng.random() < 0.6]
         else:
             # the last 32 variables are pinned by fields no temperature here can overcome, the leading ones move freely at
